@@ -170,7 +170,7 @@ func c11(w *core.World, r *core.Report) {
 			}
 			sorted := s.Common().Args[0]
 			// a later positional use of the same slice
-			for _, b := range f.Blocks {
+			for _, b := range core.Blocks(f) {
 				for _, in := range b.Instrs {
 					var used ssa.Value
 					switch x := in.(type) {
